@@ -14,14 +14,6 @@ using bspline::support::Support;
 
 namespace {
 
-template <typename T>
-bool sameBits(const T &a, const T &b) {
-  if constexpr (ST<T>::exact)
-    return vq::peek(a) == vq::peek(b);
-  else
-    return a == b && std::signbit(a) == std::signbit(b);
-}
-
 template <typename T, size_t o>
 void evalCase(Ctx &c, Rng &g) {
   const bool dyadic = !ST<T>::exact;
